@@ -81,6 +81,7 @@ type Res struct {
 	Missing bool             `json:"missing,omitempty"`
 	Val     *rec.D           `json:"val,omitempty"`
 	Static  string           `json:"static,omitempty"`
+	SPkg    string           `json:"spkg,omitempty"` // package path of the getter's result type
 	Events  []rec.DE         `json:"events,omitempty"`
 	Counts  map[string]int64 `json:"counts,omitempty"`
 	API     *API             `json:"api,omitempty"`
@@ -244,6 +245,13 @@ func (r *runner) exec(op Op, res *Res) {
 			return
 		}
 		res.Static = apidump.Sig(m.Type(), 0)
+		if m.Type().NumOut() > 0 {
+			t := m.Type().Out(0)
+			if t.Kind() == reflect.Ptr {
+				t = t.Elem()
+			}
+			res.SPkg = t.PkgPath()
+		}
 		outs := m.Call(in)
 		switch len(outs) {
 		case 1:
